@@ -764,6 +764,7 @@ class PDFDocument:
         self._parsed_objs: Dict[int, Tuple[List[object], int]] = {}
         # object streams being looked up, to detect one stored in itself
         self._objstm_stack: List[int] = []
+        self._parsing_objs: Set[int] = set()
         self._parser = parser
         self._parser.set_document(self)
         self.is_printable = self.is_modifiable = self.is_extractable = True
@@ -868,6 +869,9 @@ class PDFDocument:
 
     def _getobj_parse(self, pos: int, objid: int) -> object:
         assert self._parser is not None
+        if objid in self._parsing_objs:
+            # the object is needed to parse itself, e.g. as its own /Length
+            raise PDFObjectNotFound(objid)
         self._parser.seek(pos)
         (_, objid1) = self._parser.nexttoken()  # objid
         (_, genno) = self._parser.nexttoken()  # genno
@@ -890,7 +894,11 @@ class PDFDocument:
 
         if kwd != KWD(b"obj"):
             raise PDFSyntaxError("Invalid object spec: offset=%r" % pos)
-        (_, obj) = self._parser.nextobject()
+        self._parsing_objs.add(objid)
+        try:
+            (_, obj) = self._parser.nextobject()
+        finally:
+            self._parsing_objs.discard(objid)
         return obj
 
     # can raise PDFObjectNotFound
